@@ -19,7 +19,7 @@ ASSUMPTIONS = ['float32 logits compared within 2e-4 relative to the largest |log
                'termination is decided on decoding steps: at most W//4 + 2']
 N = {'quick': 40, 'thorough': 3000}
 CLASSES = ['default', 'deep', 'wide', 'eos_early', 'never_ends', 'single_head', 'run_ocr', 'default', 'batch_256', 'long_line', 'huge_alphabet']
-REQUIRED = ['stepwise_prefix_decodes', 'steps_scored_twice', 'uncached_step_after_cached_ones', 'models_with_more_than_32767_classes', 'run_ocr_float_batches', 'batches_of_256_or_more_lines', 'lines_decoded_for_more_than_500_steps', 'models_with_zero_width_space_in_the_alphabet', 'batches', 'cached_vs_uncached', 'cached_vs_teacher_forced', 'fresh_vs_history', 'single_vs_batch_lines', 'cache_calls_checked', 'cross_attention_cache_checked',
+REQUIRED = ['stepwise_decodes_with_a_final_norm', 'stepwise_decodes_with_reordered_hypotheses', 'stepwise_prefix_decodes', 'steps_scored_twice', 'uncached_step_after_cached_ones', 'models_with_more_than_32767_classes', 'run_ocr_float_batches', 'batches_of_256_or_more_lines', 'lines_decoded_for_more_than_500_steps', 'models_with_zero_width_space_in_the_alphabet', 'batches', 'cached_vs_uncached', 'cached_vs_teacher_forced', 'fresh_vs_history', 'single_vs_batch_lines', 'cache_calls_checked', 'cross_attention_cache_checked',
             'batches_after_different_batch', 'lines_hit_length_cap', 'lines_ended', 'run_ocr_batches', 'run_ocr_history_batches']
 SHARDS = {'quick': 8, 'thorough': 16}
 TIMEOUT = {'quick': 1200, 'thorough': 10800}
@@ -258,32 +258,59 @@ def check(case, mon, ctx):
             lab = srng.integers(0, BND, size=(S, b['n']))
             lab[0, :] = BND
             lab_t = torch.from_numpy(lab).long()
+            # (round 7) a third of these decodes use a decoder with a final normalisation layer and ask some steps for the attention weights as well; when the batch has
+            # several lines, the hypotheses are re-ordered in the middle (as a beam search does: cache_index_select with a non-identity, possibly repeating, index list)
+            with_norm = b['seed'] % 3 == 0
+            # (only the step recomputed without caches may follow the re-ordering: on the unchanged tree cached steps after it do not reproduce the forward pass - the
+            # attention caches over the encoder output are indexed by target length there - and the recogniser itself never re-orders)
+            t_reorder = S - 1 if (b['n'] >= 2 and S >= 4 and b['seed'] % 2 == 1) else None
             with torch.no_grad(), contextlib.redirect_stdout(io.StringIO()):
                 ctx.check_cache = False
+                if with_norm:
+                    torch.manual_seed(b['seed'])
+                    ln = torch.nn.LayerNorm(eng.net.dim_model)
+                    ln.weight.normal_(1.0, 0.3)
+                    ln.bias.normal_(0.0, 0.3)
+                    eng.net.trans_decoder.norm = ln.eval()
+                    mon.count('stepwise_decodes_with_a_final_norm')
                 xf = torch.from_numpy(x).float() / 255.0
                 ref_full = eng.net(xf, lab_t.permute(1, 0)).permute(1, 0, 2)            # lines, steps, classes
                 enc = eng.net.encode(xf)
                 embs = torch.empty((0, b['n'], enc.shape[2]))
                 worst, where = 0.0, None
                 for t in range(S):
+                    if t_reorder is not None and t == t_reorder:
+                        perm = srng.integers(0, b['n'], size=b['n'])
+                        if (perm == np.arange(b['n'])).all():
+                            perm = np.roll(perm, 1)
+                        pt = torch.from_numpy(perm).long()
+                        eng.net.trans_decoder.cache_index_select(pt, t)
+                        embs, enc, xf = embs[:, pt], enc[:, pt], xf[pt]
+                        lab_t = torch.cat((lab_t[:t][:, pt], lab_t[t:]))
+                        ref_full = eng.net(xf, lab_t.permute(1, 0)).permute(1, 0, 2)
+                        mon.count('stepwise_decodes_with_reordered_hypotheses')
                     if t > 0 and srng.random() < 0.3:
                         alt = (lab_t[t] + 1) % BND                                       # look-ahead: the same step with another candidate first
                         eng.net.trans_decoder.infer(eng.net.pos_encoder(torch.cat((embs, eng.net.dec_embeder(alt).unsqueeze(0)))), enc, is_cached=True)
                         mon.count('steps_scored_twice')
                     embs = torch.cat((embs, eng.net.dec_embeder(lab_t[t]).unsqueeze(0)))
                     # (a step recomputed without caches does not fill them, so only the LAST step may be of the other kind: k cached steps, then step k+1 from scratch)
-                    cached = not (t == S - 1 and t > 1 and (b['seed'] % 2 == 0))
+                    cached = not (t == S - 1 and t > 1 and (b['seed'] % 2 == 0 or t_reorder is not None))
                     if not cached:
                         mon.count('uncached_step_after_cached_ones')
-                    out_t = eng.net.dec_out_proj(eng.net.trans_decoder.infer(eng.net.pos_encoder(embs), enc, is_cached=cached))
+                    want_att = bool(with_norm and cached and srng.random() < 0.5)          # (attention weights are only available from cached steps)
+                    res_t = eng.net.trans_decoder.infer(eng.net.pos_encoder(embs), enc, is_cached=cached, return_attention=want_att)
+                    out_t = eng.net.dec_out_proj(res_t[0] if want_att else res_t)
                     d_ = float((out_t - ref_full[:, t]).abs().max())
                     if d_ > worst:
                         worst, where = d_, (t, cached)
+            if with_norm:
+                eng.net.trans_decoder.norm = None
             mon.count('stepwise_prefix_decodes')
             mon.observe_max('stepwise_vs_forward_rel', worst / max(5.0, float(ref_full.abs().max())))
             if worst > TOL_REL * max(5.0, float(ref_full.abs().max())):
                 mon.violation('cached-equals-teacher-forced-forward', dict(w, via='step-wise interface with a harness-chosen prefix, look-ahead re-scoring and a final step recomputed without caches', max_abs_diff=worst,
-                              step=where[0], step_was_cached=where[1], steps=S))
+                              step=where[0], step_was_cached=where[1], steps=S, final_norm=with_norm, hypotheses_reordered_before_step=t_reorder))
         if case['cls'] == 'run_ocr' and b['w'] < 1088:
             # run_ocr on a floating-point batch with non-integer pixel values (an image that went through interpolation): the scores are those of the
             # same pixels padded to 1088 columns by the harness
